@@ -215,6 +215,10 @@ def check_history(ck, rule, inst, site, make, f, stubs=None, max_paths=48, stick
                 elif stale and _guard_atoms(rec["conds"][k - 1], set(mapping.values()), "tensor_equal"):
                     # the stored inputs were found equal in content to the current ones: what was computed from them is current
                     ck.ok(rule, name + " (reuse under torch.equal of the kept and the current values)", site)
+                elif stale and _key_carries(rec["conds"][k - 1], {mapping[s_] for s_ in stale}):
+                    # the stored result was found under a key that holds the raw content of the very inputs that changed: an equal
+                    # key means equal content, what was computed from it is current
+                    ck.ok(rule, name + " (reuse under a lookup key that carries the content of the inputs)", site)
                 elif stale and _guard_atoms(rec["conds"][k - 1], set(mapping.values()), "tensor_allclose"):
                     ck.violation(rule, name, site, "after %s, the next call returns the value computed from the previous %s whenever the new values are within torch.allclose's tolerance of the kept ones "
                                  "(rtol 1e-5, atol 1e-8): closeness of the inputs is not equality, the result handed out belongs to other parameters"
@@ -238,6 +242,32 @@ def check_history(ck, rule, inst, site, make, f, stubs=None, max_paths=48, stick
             if not shared and len(b1) == len(a1):
                 ck.check(all(x == y for x, y in zip(a1, b1)), rule, "%s:the first result is left alone by the second call [%s]" % (inst, tag), site,
                          "the value handed out by the first call was modified by the second call", key="%s|%s|clobbered" % (rule, inst))
+
+
+def _key_carries(conds, need):
+    """A membership test decided 'present' between the two calls whose key contains the raw bytes of tensors that together
+    mention every symbol in `need` (the current values of the inputs whose previous values the reused result was computed from)."""
+    from ..values import VUnknown, fingerprint
+
+    def byte_syms(fp, acc):
+        if isinstance(fp, tuple):
+            if len(fp) == 2 and fp[0] == "bytes" and hasattr(fp[1], "syms"):
+                acc |= fp[1].syms()
+            else:
+                for x in fp:
+                    byte_syms(x, acc)
+        return acc
+
+    if not need:
+        return False
+    for c in conds:
+        u = c[3] if len(c) > 3 else None
+        ops_ = getattr(u, "operands", None)
+        if isinstance(u, VUnknown) and u.tag == "in" and ops_ is not None and c[2] is (not getattr(u, "negated", False)):
+            fp = fingerprint(ops_[0])
+            if fp is not None and need <= byte_syms(fp, set()):
+                return True
+    return False
 
 
 def _guard_atoms(conds, new_syms, op):
